@@ -106,10 +106,7 @@ func Verif_C16_R1_MsgAppV2() {
 	var buf bytes.Buffer
 	enc := newMsgAppV2Encoder(&buf, &stats.PeerStats{})
 	k := 1 + vsym.Choose("k", c16Seq())
-	maxEnts := 1
-	if vsym.Thorough() {
-		maxEnts = 2
-	}
+	maxEnts := 1 // (2 entries per message in sequences of 2 messages did not finish within 25 minutes; thorough widens entry data lengths only)
 	var sent []raftpb.Message
 	for i := 0; i < k; i++ {
 		var m raftpb.Message
